@@ -42,7 +42,7 @@ def shards(tier, seed):
 def floors(tier):
     return {"pairs:equivalent": 1500, "pairs:inequivalent": 1500, "constructive:gates_verified": 500,
             "constructive:sequence_verified": 500, "lc_check:calls": 200, "lcomp:calls": 400, "pairs:disconnected": 200,
-            "mode:random": 300, "arguments:checked_unchanged": 2000, "history:same_arrays_asked_again": 300, "set:solution_space_dim": 5, "state_converter_circuit:calls": 50, "lc_check:non_graph_form_tableaux": 150}
+            "mode:random": 300, "pairs:n>=10": 20, "arguments:checked_unchanged": 2000, "history:same_arrays_asked_again": 300, "set:solution_space_dim": 5, "state_converter_circuit:calls": 50, "lc_check:non_graph_form_tableaux": 150}
 
 
 class BasisProbe:
@@ -123,6 +123,9 @@ def run_shard(spec, ctx):
     elif k == "big":
         for i in range(spec["count"]):
             n = int(rng.integers(7, 10))
+            if i % 6 == 0:
+                n = int(rng.integers(10, 17))        # beyond every exhaustive regime: equivalent pairs by construction
+                ctx.count("pairs:n>=10")
             A = graphs.random_connected_graph(rng, n, [0.15, 0.3, 0.5][i % 3]) if i % 5 else graphs.random_graph(rng, n, 0.3)
             if i % 2 == 0:
                 B = A.copy()
